@@ -26,25 +26,27 @@ HistNext(h1, h2) == \/ h1 = "fresh" /\ h2 \in {"noC", "noH"}
 
 Init == /\ s \in {t \in States : t.hist = "fresh"}
         /\ closed = FALSE
-        /\ g = "ok"
+        /\ g = <<"ok", {}, "">>
         /\ last = [op |-> "init"]
 
 \* a commitment update (or the initial commitments) accepted by the signer
 Advance == /\ ~closed
            /\ \E t \in States : /\ SameChannel(s, t) /\ HistNext(s.hist, t.hist) /\ t # s
                                 /\ s' = t
-           /\ UNCHANGED <<closed, g>>
+           /\ UNCHANGED closed
+           /\ g' = <<"ok", {}, "">>
            /\ last' = [op |-> "Advance"]
 
 Close == \E r \in AbsReqs(s, KR) :
            LET w == WorldOf(s, r.allow)
                q == JudgedReq(ConcReq(s, r))
                o == ImplStep(w, q)
-               must == MustRefuse(w, q) IN
+               fs == FailSets(w, q)
+               must == MustRefuseF(fs) IN
            /\ closed' = (closed \/ o.ok)
-           /\ g' = IF o.ok /\ must THEN "signed_must_refuse" ELSE g
+           /\ g' = IF o.ok /\ must THEN <<"signed_must_refuse", MinFailF(fs), FeeNote(w, q)>> ELSE <<"ok", {}, "">>
            /\ last' = [op |-> "Close", r |-> r, ok |-> o.ok, tag |-> o.tag, must |-> must,
-                       fail |-> IF must THEN MinFail(w, q) ELSE {}]
+                       fail |-> IF must THEN MinFailF(fs) ELSE {}]
            /\ UNCHANGED s
 
 Next == Advance \/ Close
@@ -52,7 +54,8 @@ Spec == Init /\ [][Next]_<<s, closed, g, last>>
 View == <<s, closed, g>>
 
 \* the property at design level: the model never signs what the reference must refuse ...
-C07 == g = "ok"
+\* (g describes the last step only, so that `-continue` lists every distinct hypothesis once per state)
+C07 == g[1] = "ok"
 \* ... and a signed close leaves the channel marked closed (last is not in the view: checked as an action property)
 ClosedAfterSign == [][last'.op = "Close" /\ last'.ok => closed']_<<s, closed, g, last>>
 =============================================================================
